@@ -112,3 +112,18 @@ void ok_alias_order(eb_t r, const eb_t p, const eb_t q) {
 	fb_mul(r->z, r->x, r->y);
 	r->coord = PROJC;
 }
+
+/* OUT-FULL over the quadratic extension of the binary field */
+void ok_full__fb2_inv(fb2_t c, const fb2_t a) {
+	fb_inv(c[0], a[0]);
+	fb_zero(c[1]);
+}
+
+void bad_out_full__fb2_fast(fb2_t c, const fb2_t a) {
+	if (fb_is_zero(a[1])) {
+		fb_inv(c[0], a[0]);
+		return;
+	}
+	fb_mul(c[0], a[0], a[1]);
+	fb_sqr(c[1], a[1]);
+}
